@@ -176,6 +176,7 @@ static Profile profileOf(const std::string& n) {
   } else if (n == "c13" || n == "dropin") {
     p.drop = true; p.rsDelays = {0}; p.rsDelayPct = 100; p.ownDelayPct = 0;
     p.actAsync = {0, 0, 15}; p.detStop = {0, 15};
+    p.cg = true;   // base rulesets scoped by a cgroup pattern are targeted (and disabled) by drop-ins too
   } else if (n == "mixed") {
     p.cg = true; p.drop = true;
   }
